@@ -57,8 +57,38 @@ func c02DeliveryClass(sp *spec.Spec, l *Layout, v any) bool {
 // the statement and such values are asserted neither valid nor invalid.
 func ambiguousEmpty(sp *spec.Spec, t *spec.Type, v any) bool {
 	e := sp.Eff(t)
+	switch x := v.(type) {
+	case spec.Arr:
+		// the same question one level down: elements of arrays, values of maps
+		for _, el := range x {
+			if e.Elem != nil && ambiguousEmpty(sp, e.Elem, el) {
+				return true
+			}
+		}
+		return false
+	case spec.MapV:
+		for _, kv := range x {
+			if e.Elem != nil && ambiguousEmpty(sp, e.Elem, kv.V) {
+				return true
+			}
+		}
+		return false
+	}
 	o, ok := v.(spec.Obj)
 	if !ok {
+		return false
+	}
+	if e.K == spec.KUnion {
+		// only the chosen alternative holds a value
+		for _, a := range e.Attrs {
+			if av := o[a.Name]; av != nil {
+				ae := sp.Eff(a.T)
+				if (ae.K == spec.KArray || ae.K == spec.KMap || ae.K == spec.KBytes) && spec.IsEmptyColl(av) && len(ae.Vs) > 0 {
+					return true
+				}
+				return ambiguousEmpty(sp, a.T, av)
+			}
+		}
 		return false
 	}
 	for _, a := range e.Attrs {
@@ -86,7 +116,7 @@ func ambiguousEmpty(sp *spec.Spec, t *spec.Type, v any) bool {
 				}
 			}
 		}
-		if ae.K == spec.KObject && av != nil && ambiguousEmpty(sp, a.T, av) {
+		if (ae.K == spec.KObject || ae.K == spec.KArray || ae.K == spec.KMap || ae.K == spec.KUnion) && av != nil && ambiguousEmpty(sp, a.T, av) {
 			return true
 		}
 	}
@@ -222,6 +252,16 @@ func c04Request(s *Svc, m *spec.Method, l *Layout, v any, issues []spec.Issue, r
 	}
 	p, pv := suspect(l, sentN)
 	if call.ServerPanic != "" {
+		if call.ServerReq == nil && len(issues) > 0 {
+			// the generated client itself failed (nil dereference in a body constructor) on a
+			// payload that violates the design, before anything was sent: no request exists, user
+			// code did not run; the statement asks nothing of the client here (as for the server
+			// and a result that violates the design, see c04Result)
+			if report {
+				r.outcome("client-panic-on-invalid-payload")
+			}
+			return sigs
+		}
 		fail("C04 server-panic "+featSig(m, p)+" "+panicSite(call.ServerPanic), "server handler panicked: "+call.ServerPanic)
 		return sigs
 	}
@@ -428,6 +468,32 @@ func c04Malformed(s *Svc, m *spec.Method, l *Layout, r *MethodResult) {
 			}
 			if e.K == spec.KString || e.K == spec.KBytes {
 				vs = append(vs, variant{"body-wrong-json-type", func(_ *http.Request, body *[]byte) { *body = []byte(`{"` + p.Wire + `":12}`) }})
+			}
+			if e.K == spec.KUnion {
+				// OneOf union: {"Type": alternative, "Value": JSON text}; malformed Value texts,
+				// an undeclared alternative and a missing Value
+				for _, alt := range e.Attrs {
+					alt := alt
+					ak := sp.Eff(alt.T).K
+					wrong := `"zz"`
+					if ak == spec.KString || ak == spec.KBytes || ak == spec.KAny {
+						wrong = `12`
+					}
+					if ak != spec.KAny {
+						vs = append(vs, variant{"union-value-wrong-json-type-" + typeClass(sp, alt.T), func(_ *http.Request, body *[]byte) {
+							*body = []byte(`{"` + p.Wire + `":{"Type":"` + alt.Name + `","Value":` + fmt.Sprintf("%q", wrong) + `}}`)
+						}})
+					}
+					vs = append(vs, variant{"union-value-invalid-json-" + typeClass(sp, alt.T), func(_ *http.Request, body *[]byte) {
+						*body = []byte(`{"` + p.Wire + `":{"Type":"` + alt.Name + `","Value":"{"}}`)
+					}})
+				}
+				vs = append(vs, variant{"union-undeclared-alternative", func(_ *http.Request, body *[]byte) {
+					*body = []byte(`{"` + p.Wire + `":{"Type":"nope","Value":"1"}}`)
+				}})
+				vs = append(vs, variant{"union-missing-value", func(_ *http.Request, body *[]byte) {
+					*body = []byte(`{"` + p.Wire + `":{"Type":"` + e.Attrs[0].Name + `"}}`)
+				}})
 			}
 			vs = append(vs, variant{"body-invalid-json", func(_ *http.Request, body *[]byte) { *body = []byte(`{"` + p.Wire + `":`) }})
 			vs = append(vs, variant{"body-wrong-top-level-type", func(_ *http.Request, body *[]byte) { *body = []byte(`[1]`) }})
